@@ -301,13 +301,16 @@ Fadvise(r) ==      \* result ignored
 ----------------------------------------------------------------------------
 (* io_read(): read() on the source.  k: "full" (buffer filled), "short" (0 < n < requested),
    "eof" (0), "eintr", "err" *)
-Read(k) ==
+ReadG(k, trail) ==   \* trail: the one-more-byte read of coder_normal() after LZMA_STREAM_END (.lzma / raw: no
+                     \* trailing garbage allowed); it is in the middle of a loop iteration: user_abort is not tested
   /\ Sys /\ ~srcEof
   /\ intr = "none" \/ (intr = "read" /\ ~userAbort)       \* EINTR: retry unless user_abort
-  /\ \/ pc = "first_read"
-     \/ pc = "coding" /\ ~mustWrite /\ (mustFill \/ intr = "read" \/ ~userAbort)
+  /\ abortW' = IF trail /\ userAbort THEN 3 ELSE abortW
+  /\ \/ pc = "first_read" /\ ~trail
+     \/ /\ pc = "coding" /\ ~mustWrite
+        /\ mustFill \/ intr = "read" \/ ~userAbort \/ (trail /\ cfg.dec /\ ~mustFill /\ abortW < 3)
   /\ UNCHANGED <<cur, src, dst, dstSynced, dirSynced, dstClosedOk, cleanupBroken, envTouched, dstDamaged, lostForeign,
-                 pvars, outFull, mustWrite, abortW, sigBlocked, listSt>>
+                 pvars, outFull, mustWrite, sigBlocked, listSt>>
   /\ intr' = IF k = "eintr" THEN "read" ELSE "none"
   /\ hole' \in IF pc = "coding" /\ k \in {"full", "eof"} THEN MoreHole(hole) ELSE {hole}
   /\ LET after == IF pc = "first_read" THEN "inited" ELSE "coding" IN
@@ -320,6 +323,9 @@ Read(k) ==
        [] k = "eintr" -> /\ Fault(k) /\ UNCHANGED <<srcEof, exitStatus, ioFailed, mustFill>> /\ pc' = pc
        [] k = "err"   -> /\ Fault(k) /\ UNCHANGED srcEof /\ mustFill' = FALSE
                          /\ exitStatus' = Err(exitStatus) /\ pc' = "closing" /\ ioFailed' = Set(ioFailed, TRUE)
+
+Read(k) == ReadG(k, FALSE)
+ReadTrail(k) == ReadG(k, TRUE)
 
 ----------------------------------------------------------------------------
 (* io_open_dest_real() *)
@@ -576,7 +582,7 @@ Next ==
                    \/ StatDst(~cfg.force, r) \/ StatSrc(~cfg.force, r)
                    \/ FcntlOut("GETFL", r) \/ FcntlOut("SETFL", r)
   \/ \E r \in {"ok", "noent", "err"} : UnlinkDst(r)
-  \/ \E k \in {"full", "short", "eof", "eintr", "err"} : Read(k)
+  \/ \E k \in {"full", "short", "eof", "eintr", "err"} : Read(k) \/ ReadTrail(k)
   \/ \E k \in {"all", "short", "eintr", "err"}, f \in BOOLEAN : Write(k, f)
   \/ \E k \in {"data", "eof", "err", "eintr"} : ListRead(k)
   \/ ListClose
